@@ -1,7 +1,7 @@
 ------------------------------- MODULE Metric -------------------------------
 (* Declarative meaning of LogQL metric queries (C09 - C13).
    Anchors: internal/logql/logqlengine/{sampler,aggregated_labels}.go, logqlmetric/*.go.
-   Time: whole seconds for evaluation times, ranges, offsets and steps; record timestamps are <<s, ns>>.
+   Time: record timestamps and evaluation times are <<s, ns>>; ranges and offsets are whole seconds.
    Numbers: [k |-> "rat", n, d] exact rationals, [k |-> "irat", n, d] rationals the implementation's binary floating
    point holds only up to rounding (their value is compared with a tolerance, and whatever is discontinuous at them -
    an equality, an ordering of equal values, a modulus whose quotient is whole - is left open), or the tags "nan",
@@ -147,10 +147,11 @@ TsLeq(a, b) == a[1] < b[1] \/ (a[1] = b[1] /\ a[2] <= b[2])
 \* entries (time order) of the range expression's log query; computed once per scenario by the trace specification
 EntriesOf(e, recs) == LogResult(e.sel, e.stages, recs)
 
-\* the range vector at evaluation time T: samples with T - o - r <= ts <= T - o, grouped by retained labels
+\* the range vector at evaluation time T = <<s, ns>>: samples with T - o - r <= ts <= T - o, grouped by retained labels
+\* (ranges and offsets are whole seconds; evaluation times need not be)
 RangeAt(e, ents, T) ==
-  LET lo == <<T - e.offset - e.range, 0>>
-      hi == <<T - e.offset, 0>>
+  LET lo == <<T[1] - e.offset - e.range, T[2]>>
+      hi == <<T[1] - e.offset, T[2]>>
       inWin == SelectSeq(ents, LAMBDA x : TsLeq(lo, x.ts) /\ TsLeq(x.ts, hi) /\ SampleOf(e, x).ok)
       keys == {Retained(e.grp, inWin[i].L) : i \in DOMAIN inWin}
   IN {[L |-> key,
